@@ -12,6 +12,8 @@ batch/front_end/front_end.py and hailctl/config/config_variables.py; nothing of 
   R2  grammar.  L(regex, fullmatch) == the documented grammar  [+]? (D+ | D* '.' D+) unit? ['B']  as automata; capture group 1 is
       exactly the unsigned decimal number, capture group 2 exactly the unit set; `conv_factor` has exactly those units as keys
       with the values 1000^n / 1024^n (constant-folded from the literal table).
+  R4  formula.  The same evaluator with float() read as exact rational arithmetic: floor(value*1000) mCPU (value/1000 with the
+      m suffix), ceil(value*factor) bytes - decides units/direction/truncation independently of rounding.
   R3  exactness.  Our own evaluator interprets each parse function body (float / int / math.ceil / Decimal / Fraction arithmetic over
       the extracted syntax tree) on a family of accepted spellings and compares with exact rational arithmetic: floor(value*1000)
       millicores, ceil(value*factor) bytes.  Every return statement is an instance; a mismatch is reported with the concrete
@@ -131,7 +133,6 @@ def _check_none_iff_no_match(ctx: Ctx, p: ParseFn) -> None:
             gate = (n, neg)
     ctx.need(gate is not None, f'{p.name}: no `if {holder}` test found')
     gn, neg = gate  # type: ignore[misc]
-    ctx.need(g.dominated_by(gn, lambda x: x.ast is not None and any(y is p.call for y in pf.walk_shallow(x.ast))) or True, 'unreachable')
     yes, no = ('F', 'T') if neg else ('T', 'F')
 
     def returns_from(label: str) -> Tuple[List[pf.Node], bool]:
@@ -322,174 +323,212 @@ def _server_validators(ctx: Ctx, mv: pf.Module) -> Dict[str, ast.AST]:
 # --------------------------------------------------------------------------------------
 
 
-class _Return(Exception):
-    def __init__(self, value: Any, stmt: ast.Return):
-        self.value = value
-        self.stmt = stmt
+class _EvalRaise(Exception):
+    """The interpreted code raises on this input."""
+
+
+_RETURN = object()
 
 
 class Evaluator:
-    """Interprets the small Python subset the parse functions are written in.  Unknown syntax -> AnalysisError."""
+    """Our own interpreter for the small Python subset the parse functions are written in, compiled once into closures over an
+    environment dict.  Unknown syntax -> AnalysisError at compile time.  With ideal=True `float(x)` is read as the exact rational
+    number (formula check, independent of rounding); otherwise it is the interpreter's binary64 float."""
 
-    def __init__(self, p: ParseFn):
+    def __init__(self, p: ParseFn, ideal: bool = False):
         self.p = p
+        self.ideal = ideal
         self.m = p.m
-        self.imports = p.m.imports()
+        self.imports = sp.imports_of(p.m)
         self.compiled = re.compile(p.rd.pattern, p.rd.flags)  # platform regex on the extracted pattern text (group extraction)
         self.consts: Dict[str, Any] = {}
         self.float_calls = [c for c in pf.calls_in(p.fn) if pf.dotted(c.func) == 'float']
+        self.body = self.block(list(p.fn.body))
 
     def run(self, text: str) -> Tuple[Any, Optional[ast.Return]]:
         env: Dict[str, Any] = {self.p.param: text}
-        try:
-            self.block(self.p.fn.body, env)
-        except _Return as r:
-            return r.value, r.stmt
-        return None, None
+        r = self.body(env)
+        if r is None:
+            return None, None
+        return r[1], r[2]
 
-    def block(self, stmts: List[ast.stmt], env: Dict[str, Any]) -> None:
-        for st in stmts:
-            if isinstance(st, ast.Expr) and isinstance(st.value, ast.Constant):
-                continue
-            if isinstance(st, ast.Assign) and len(st.targets) == 1 and isinstance(st.targets[0], ast.Name):
-                env[st.targets[0].id] = self.ev(st.value, env)
-            elif isinstance(st, ast.AnnAssign) and isinstance(st.target, ast.Name) and st.value is not None:
-                env[st.target.id] = self.ev(st.value, env)
-            elif isinstance(st, ast.AugAssign) and isinstance(st.target, ast.Name):
-                env[st.target.id] = self.binop(st.op, env[st.target.id], self.ev(st.value, env))
-            elif isinstance(st, ast.If):
-                self.block(st.body if self.ev(st.test, env) else st.orelse, env)
-            elif isinstance(st, ast.Return):
-                raise _Return(self.ev(st.value, env) if st.value is not None else None, st)
-            elif isinstance(st, ast.Pass):
-                pass
-            else:
-                raise AnalysisError(f'{self.p.name}: statement not supported by the arithmetic evaluator: `{pf.nsrc(st)[:70]}` (line {st.lineno})')
+    # -- statements: closure(env) -> None (fell through) | (_RETURN, value, stmt)
+    def block(self, stmts: List[ast.stmt]):
+        parts = [self.stmt(st) for st in stmts if not (isinstance(st, ast.Expr) and isinstance(st.value, ast.Constant)) and not isinstance(st, ast.Pass)]
+
+        def run_block(env):
+            for f in parts:
+                r = f(env)
+                if r is not None:
+                    return r
+            return None
+        return run_block
+
+    def stmt(self, st: ast.stmt):
+        if isinstance(st, (ast.Assign, ast.AnnAssign)):
+            tgt = st.targets[0] if isinstance(st, ast.Assign) and len(st.targets) == 1 else getattr(st, 'target', None)
+            if isinstance(tgt, ast.Name) and st.value is not None:
+                name, val = tgt.id, self.expr(st.value)
+
+                def assign(env):
+                    env[name] = val(env)
+                return assign
+        if isinstance(st, ast.AugAssign) and isinstance(st.target, ast.Name):
+            name, val, op = st.target.id, self.expr(st.value), self.binop(st.op)
+
+            def aug(env):
+                env[name] = op(env[name], val(env))
+            return aug
+        if isinstance(st, ast.If):
+            test, body, orelse = self.expr(st.test), self.block(list(st.body)), self.block(list(st.orelse))
+            return lambda env: body(env) if test(env) else orelse(env)
+        if isinstance(st, ast.Return):
+            val = self.expr(st.value) if st.value is not None else (lambda env: None)
+            return lambda env: (_RETURN, val(env), st)
+        raise AnalysisError(f'{self.p.name}: statement not supported by the arithmetic evaluator: `{pf.nsrc(st)[:70]}` (line {st.lineno})')
 
     @staticmethod
-    def binop(op: ast.operator, a: Any, b: Any) -> Any:
-        if isinstance(op, ast.Add):
-            return a + b
-        if isinstance(op, ast.Sub):
-            return a - b
-        if isinstance(op, ast.Mult):
-            return a * b
-        if isinstance(op, ast.Div):
-            return a / b
-        if isinstance(op, ast.FloorDiv):
-            return a // b
-        if isinstance(op, ast.Mod):
-            return a % b
-        if isinstance(op, ast.Pow):
+    def binop(op: ast.operator):
+        def guarded(f):
+            def g(a, b):
+                try:
+                    return f(a, b)
+                except (OverflowError, ZeroDivisionError, TypeError, decimal.InvalidOperation) as ex:
+                    raise _EvalRaise(f'{type(ex).__name__}: {ex}') from ex
+            return g
+
+        def power(a, b):
             if not isinstance(b, int) or abs(b) > 64:
                 raise AnalysisError('evaluator: exponent out of range')
             return a ** b
-        raise AnalysisError(f'evaluator: operator {type(op).__name__} not supported')
+        table = {ast.Add: lambda a, b: a + b, ast.Sub: lambda a, b: a - b, ast.Mult: lambda a, b: a * b, ast.Div: lambda a, b: a / b,
+                 ast.FloorDiv: lambda a, b: a // b, ast.Mod: lambda a, b: a % b, ast.Pow: power}
+        if type(op) not in table:
+            raise AnalysisError(f'evaluator: operator {type(op).__name__} not supported')
+        return guarded(table[type(op)])
 
     def module_value(self, name: str) -> Any:
         if name not in self.consts:
-            v = sp.module_const(self.m, name)
-            self.consts[name] = self.ev(v, {})
+            self.consts[name] = self.expr(sp.module_const(self.m, name))({})
         return self.consts[name]
 
-    def ev(self, e: ast.AST, env: Dict[str, Any]) -> Any:
+    # -- expressions: closure(env) -> value
+    def expr(self, e: ast.AST):
         if isinstance(e, ast.Constant):
-            return e.value
+            v = e.value
+            return lambda env: v
         if isinstance(e, ast.Name):
-            if e.id in env:
-                return env[e.id]
-            return self.module_value(e.id)
+            name = e.id
+            locals_ = pf.assignments(self.p.fn)
+            if name in locals_:
+                def load(env):
+                    if name not in env:
+                        raise _EvalRaise(f'UnboundLocalError({name})')
+                    return env[name]
+                return load
+            return lambda env: self.module_value(name)
         if isinstance(e, ast.BinOp):
-            return self.binop(e.op, self.ev(e.left, env), self.ev(e.right, env))
-        if isinstance(e, ast.UnaryOp):
-            v = self.ev(e.operand, env)
+            op, a, b = self.binop(e.op), self.expr(e.left), self.expr(e.right)
+            return lambda env: op(a(env), b(env))
+        if isinstance(e, ast.UnaryOp) and isinstance(e.op, (ast.USub, ast.Not, ast.UAdd)):
+            a = self.expr(e.operand)
             if isinstance(e.op, ast.USub):
-                return -v
+                return lambda env: -a(env)
             if isinstance(e.op, ast.Not):
-                return not v
-            if isinstance(e.op, ast.UAdd):
-                return +v
+                return lambda env: not a(env)
+            return lambda env: +a(env)
         if isinstance(e, ast.BoolOp):
-            v = None
-            for x in e.values:
-                v = self.ev(x, env)
-                if isinstance(e.op, ast.And) and not v:
-                    return v
-                if isinstance(e.op, ast.Or) and v:
-                    return v
-            return v
+            parts = [self.expr(x) for x in e.values]
+            is_and = isinstance(e.op, ast.And)
+
+            def boolop(env):
+                v = None
+                for f in parts:
+                    v = f(env)
+                    if bool(v) != is_and:
+                        return v
+                return v
+            return boolop
         if isinstance(e, ast.IfExp):
-            return self.ev(e.body if self.ev(e.test, env) else e.orelse, env)
+            t, a, b = self.expr(e.test), self.expr(e.body), self.expr(e.orelse)
+            return lambda env: a(env) if t(env) else b(env)
         if isinstance(e, ast.Compare) and len(e.ops) == 1:
-            a, b = self.ev(e.left, env), self.ev(e.comparators[0], env)
-            op = e.ops[0]
-            table = {ast.Eq: lambda: a == b, ast.NotEq: lambda: a != b, ast.Lt: lambda: a < b, ast.LtE: lambda: a <= b, ast.Gt: lambda: a > b,
-                     ast.GtE: lambda: a >= b, ast.Is: lambda: a is b, ast.IsNot: lambda: a is not b, ast.In: lambda: a in b, ast.NotIn: lambda: a not in b}
-            if type(op) in table:
-                return table[type(op)]()
+            a, b = self.expr(e.left), self.expr(e.comparators[0])
+            table = {ast.Eq: lambda x, y: x == y, ast.NotEq: lambda x, y: x != y, ast.Lt: lambda x, y: x < y, ast.LtE: lambda x, y: x <= y,
+                     ast.Gt: lambda x, y: x > y, ast.GtE: lambda x, y: x >= y, ast.Is: lambda x, y: x is y, ast.IsNot: lambda x, y: x is not y,
+                     ast.In: lambda x, y: x in y, ast.NotIn: lambda x, y: x not in y}
+            if type(e.ops[0]) in table:
+                cmp = table[type(e.ops[0])]
+                return lambda env: cmp(a(env), b(env))
         if isinstance(e, ast.Dict) and all(k is not None for k in e.keys):
-            return {self.ev(k, env): self.ev(v, env) for k, v in zip(e.keys, e.values)}  # type: ignore[arg-type]
+            ks = [self.expr(k) for k in e.keys]  # type: ignore[arg-type]
+            vs = [self.expr(v) for v in e.values]
+            return lambda env: {k(env): v(env) for k, v in zip(ks, vs)}
         if isinstance(e, ast.Subscript):
-            base = self.ev(e.value, env)
-            key = self.ev(e.slice, env)
-            if isinstance(base, dict):
-                if key not in base:
-                    raise _EvalRaise(f'KeyError({key!r})')
-                return base[key]
+            base, key = self.expr(e.value), self.expr(e.slice)
+
+            def sub(env):
+                d, k = base(env), key(env)
+                if not isinstance(d, dict):
+                    raise AnalysisError(f'{self.p.name}: subscript of a non-dict value in `{pf.nsrc(e)}`')
+                if k not in d:
+                    raise _EvalRaise(f'KeyError({k!r})')
+                return d[k]
+            return sub
         if isinstance(e, ast.Call) and not e.keywords:
             if e is self.p.call:
-                return getattr(self.compiled, self.p.mode)(env[self.p.param])
-            args = [self.ev(a, env) for a in e.args]
+                matcher, param = getattr(self.compiled, self.p.mode), self.p.param
+                return lambda env: matcher(env[param])
+            args = [self.expr(a) for a in e.args]
             f = e.func
-            if isinstance(f, ast.Attribute) and f.attr == 'group' and isinstance(f.value, ast.Name) and isinstance(env.get(f.value.id), re.Match):
-                return env[f.value.id].group(*args)
+            if isinstance(f, ast.Attribute) and f.attr == 'group' and isinstance(f.value, ast.Name):
+                holder = f.value.id
+
+                def group(env):
+                    mo = env.get(holder)
+                    if not isinstance(mo, re.Match):
+                        raise AnalysisError(f'{self.p.name}: `{pf.nsrc(e)}` is not applied to the match object')
+                    return mo.group(*[a(env) for a in args])
+                return group
             name = pf.dotted(f) or ''
-            origin = self.imports.get(name.split('.')[0], '')
-            full = name if '.' not in name else origin + name[name.index('.'):]
-            if '.' not in name and origin:
-                full = origin
-            try:
-                if name == 'float' and len(args) == 1:
-                    return float(args[0])
-                if name == 'int' and len(args) == 1:
-                    return int(args[0])
-                if name == 'round' and len(args) == 1:
-                    return round(args[0])
-                if name == 'str' and len(args) == 1:
-                    return str(args[0])
-                if full == 'math.ceil' and len(args) == 1:
-                    return math.ceil(args[0])
-                if full == 'math.floor' and len(args) == 1:
-                    return math.floor(args[0])
-                if full in ('decimal.Decimal',) and len(args) == 1:
-                    return decimal.Decimal(args[0])
-                if full in ('fractions.Fraction',) and len(args) in (1, 2):
-                    return fractions.Fraction(*args)
-            except (OverflowError, ValueError, decimal.InvalidOperation, ZeroDivisionError) as ex:
-                raise _EvalRaise(f'{type(ex).__name__}: {ex}') from ex
+            head = name.split('.')[0]
+            if head in pf.assignments(self.p.fn):
+                raise AnalysisError(f'{self.p.name}: call through a local name `{name}`')
+            origin = self.imports.get(head, '')
+            full = (origin + name[len(head):]) if origin else name
+            ideal = self.ideal
+            impl = {
+                'float': (lambda x: fractions.Fraction(x)) if ideal else (lambda x: float(x)),
+                'int': lambda x: int(x), 'round': lambda x: round(x), 'str': lambda x: str(x),
+                'math.ceil': lambda x: math.ceil(x), 'math.floor': lambda x: math.floor(x), 'math.trunc': lambda x: math.trunc(x),
+                'decimal.Decimal': lambda x: decimal.Decimal(x), 'fractions.Fraction': lambda *x: fractions.Fraction(*x),
+            }.get(full)
+            if impl is not None and (len(args) == 1 or (full == 'fractions.Fraction' and len(args) == 2)):
+                def call(env):
+                    try:
+                        return impl(*[a(env) for a in args])
+                    except (OverflowError, ValueError, TypeError, decimal.InvalidOperation, ZeroDivisionError) as ex:
+                        raise _EvalRaise(f'{type(ex).__name__}: {ex}') from ex
+                return call
         raise AnalysisError(f'{self.p.name}: expression not supported by the arithmetic evaluator: `{pf.nsrc(e)[:70]}`')
-
-
-class _EvalRaise(Exception):
-    """The interpreted code raises on this input."""
 
 
 def _candidates(resource: str, units: List[str]) -> List[Tuple[str, str, Optional[str]]]:
     """(text, number, unit) - accepted spellings the arithmetic is evaluated on."""
     nums: List[str] = []
     if resource == 'cpu':
-        for i in range(0, 4):
+        for i in range(0, 3):
             nums.append(str(i))
             for w in (1, 2, 3):
                 nums += [f'{i}.{d:0{w}d}' for d in range(10 ** w)]
-        nums += [str(k) for k in range(4, 2051)]
+        nums += [str(k) for k in range(3, 1101)]
     else:
         for i in range(0, 3):
             nums.append(str(i))
             for w in (1, 2):
                 nums += [f'{i}.{d:0{w}d}' for d in range(10 ** w)]
-        nums += [f'0.{d:03d}' for d in range(1000)]
-        nums += [str(k) for k in range(3, 65)]
+        nums += [f'0.{d:03d}' for d in range(1, 1000, 3)]
+        nums += [str(k) for k in range(3, 33)]
     nums += ['.5', '.001', '007', '1.0005', '0.0015', '0.0001', '1.0000000000000000001', '9007199254740993', '0.30000000000000004',
              '123456789.123456789']
     out = []
@@ -516,51 +555,60 @@ def _exact(resource: str, number: str, unit: Optional[str]) -> int:
 
 
 def _check_exactness(ctx: Ctx, p: ParseFn, units: List[str]) -> int:
-    evalr = Evaluator(p)
-    full_dfa_lang = p.full
-    alpha = R.alphabet_for([full_dfa_lang])
-    dfa = R.to_dfa(full_dfa_lang, alpha)
-    per_stmt: Dict[int, dict] = {}
+    """R4: the formula (float read as exact real arithmetic) on a sub-family; R3: the real float arithmetic on the whole family."""
+    dfa = R.to_dfa(p.full, R.alphabet_for([p.full]))
     rets = [n for n in pf.walk_shallow(p.fn) if isinstance(n, ast.Return) and n.value is not None
             and not (isinstance(n.value, ast.Constant) and n.value.value is None)]
-    for r in rets:
-        per_stmt[id(r)] = {'stmt': r, 'n': 0, 'bad': []}
-    n_eval = 0
-    for text, number, unit in _candidates(p.resource, units):
+    cands = _candidates(p.resource, units)
+    for text, _n, _u in cands:
         if not dfa.accepts(text):
             raise AnalysisError(f'{p.name}: candidate spelling {text!r} is not in the regex language (R2 would have to fail first)')
-        want = _exact(p.resource, number, unit)
-        try:
-            got, stmt = evalr.run(text)
-        except _EvalRaise as ex:
-            got, stmt = f'raises {ex}', None
-        n_eval += 1
-        if stmt is None or id(stmt) not in per_stmt:
-            # attributed to the function as a whole
-            rec = per_stmt.setdefault(0, {'stmt': None, 'n': 0, 'bad': []})
-        else:
-            rec = per_stmt[id(stmt)]
-        rec['n'] += 1
-        if got != want or isinstance(got, bool) or not isinstance(got, int):
-            rec['bad'].append((text, got, want))
     unit_word = 'mCPU' if p.resource == 'cpu' else 'bytes'
-    for key, rec in per_stmt.items():
-        st = rec['stmt']
-        stext = pf.nsrc(st) if st is not None else 'no value returned'
-        cons = f'{F_PARSE}::{p.name}::{stext}'
-        if st is not None and rec['n'] == 0:
-            raise AnalysisError(f'{p.name}: `{stext}` is not reached by any evaluated spelling')
-        if rec['bad']:
+    n_eval = 0
+    formula_ok: Dict[int, bool] = {}
+    for rule, ideal in (('R4', True), ('R3', False)):
+        evalr = Evaluator(p, ideal)
+        per_stmt: Dict[int, dict] = {id(r): {'stmt': r, 'n': 0, 'bad': []} for r in rets}
+        family = cands if not ideal else [c for i, c in enumerate(cands) if i % 5 == 0 or len(c[1]) > 6 or c[0][0] == '+' or c[0][-1] == 'B']
+        for text, number, unit in family:
+            want = _exact(p.resource, number, unit)
+            try:
+                got, stmt = evalr.run(text)
+            except _EvalRaise as ex:
+                got, stmt = f'raises {ex}', None
+            n_eval += 1
+            rec = per_stmt[id(stmt)] if stmt is not None and id(stmt) in per_stmt else per_stmt.setdefault(0, {'stmt': None, 'n': 0, 'bad': []})
+            rec['n'] += 1
+            if got != want or isinstance(got, bool) or not isinstance(got, int):
+                rec['bad'].append((text, got, want))
+        for key, rec in per_stmt.items():
+            st = rec['stmt']
+            stext = pf.nsrc(st) if st is not None else 'no value returned'
+            cons = f'{F_PARSE}::{p.name}::{stext}'
+            if st is not None and rec['n'] == 0:
+                raise AnalysisError(f'{p.name}: `{stext}` is not reached by any evaluated spelling')
+            line = st.lineno if st is not None else p.fn.lineno
             bad = sorted(rec['bad'], key=lambda b: (len(b[0]), b[0]))
             ex = '; '.join(f'{t!r} -> {g} (exact value {w} {unit_word})' for t, g, w in bad[:3])
-            why = ''
-            if evalr.float_calls:
-                why = (' - the decimal text goes through binary float(): the product/quotient is rounded before '
-                       + ('int() truncates it' if p.resource == 'cpu' else 'math.ceil() is applied'))
-            ctx.bad('R3', cons, f'{len(bad)} of {rec["n"]} evaluated spellings give the wrong value, e.g. {ex}{why}', p.m.path,
-                    st.lineno if st is not None else p.fn.lineno, extra=[list(map(str, b)) for b in bad[:10]])
-        else:
-            ctx.ok('R3', cons, {'evaluated_spellings': rec['n'], 'float_free': not evalr.float_calls})
+            if ideal:
+                formula_ok[key] = not bad
+                ctx.check(not bad, 'R4', cons,
+                          f'even with exact real arithmetic in place of float the statement computes the wrong value for {len(bad)} of {rec["n"]} '
+                          f'evaluated spellings, e.g. {ex} (expected ' + ('floor(value * 1000), value / 1000 for the m suffix' if p.resource == 'cpu'
+                                                                          else 'ceil(value * 1000^n or 1024^n)') + ')',
+                          p.m.path, line, detail={'evaluated_spellings': rec['n']}, extra=[list(map(str, b)) for b in bad[:10]])
+            elif not formula_ok.get(key, True):
+                # the float result is wrong because the formula is wrong: already reported under R4
+                ctx.ok('R3', cons, 'not evaluated: the formula itself fails R4', nontrivial=False)
+            elif bad:
+                why = ''
+                if evalr.float_calls:
+                    why = (' - the decimal text goes through binary float(): the product/quotient is rounded before '
+                           + ('int() truncates it' if p.resource == 'cpu' else 'math.ceil() is applied'))
+                ctx.bad('R3', cons, f'{len(bad)} of {rec["n"]} evaluated spellings give the wrong value, e.g. {ex}{why}', p.m.path, line,
+                        extra=[list(map(str, b)) for b in bad[:10]])
+            else:
+                ctx.ok('R3', cons, {'evaluated_spellings': rec['n'], 'float_free': not evalr.float_calls})
     return n_eval
 
 
@@ -714,7 +762,9 @@ def run(ctx: Ctx) -> None:
     ctx.rule('R2', 'L(regex) == documented grammar [+]?(D+|D*.D+)unit?B? ; group 1 == unsigned decimal; group 2 == unit set == keys of '
                    'conv_factor with values 1000^n/1024^n', 12)
     ctx.rule('R3', 'each value-returning statement of the parse functions yields floor(value*1000) mCPU / ceil(value*factor) bytes exactly '
-                   '(own evaluator vs rational arithmetic on a family of accepted spellings)', 5)
+                   '(own evaluator with the interpreter\'s float arithmetic vs rational arithmetic on a family of accepted spellings)', 5)
+    ctx.rule('R4', 'formula: the same statements evaluated with exact real arithmetic in place of float give floor(value*1000) (value/1000 for '
+                   'the m suffix) / ceil(value*1000^n|1024^n) - independent of rounding', 5)
     ctx.assume('Python float is IEEE-754 binary64 with round-to-nearest-even (the arithmetic of the running interpreter)')
     ctx.assume('the strings reach the validators as str; the front end resolves named memory types before calling parse_memory_in_bytes')
     mp = pf.load(F_PARSE)
